@@ -72,11 +72,13 @@ EnumGood(t) == {"e" \o ToS(j) : j \in 1..EnumN(t)} \cup {"n" \o ToS(j) : j \in 1
 EnumBadOf(t) == {"e?", "n?", "float", "none", "bytes", "estr", "zerof"}
                 \cup (IF \E j \in 1..EnumN(t) : env[Base(env, t).i].vals[j] = 0 THEN {} ELSE {"zero"})
 FltGood == {"0.0", "1.5", "1"}
+\* "fbig" = 1e39: too large for a 32-bit float, fine for a 64-bit one
 FltBad == {"str", "none", "bytes", "estr", "elist"}
+FltBadOf(t) == FltBad \cup (IF Base(env, t).w = 4 THEN {"fbig"} ELSE {})
 
 Good(t) == CASE BaseKind(t) = "int" -> IntGood(t) [] BaseKind(t) = "flt" -> FltGood
              [] BaseKind(t) = "enum" -> EnumGood(t)
-Bad(t) == CASE BaseKind(t) = "int" -> IntBad [] BaseKind(t) = "flt" -> FltBad
+Bad(t) == CASE BaseKind(t) = "int" -> IntBad [] BaseKind(t) = "flt" -> FltBadOf(t)
             [] BaseKind(t) = "enum" -> EnumBadOf(t)
 \* the stored (canonical) token: enumerators are stored as their index
 Canon(t, tok) ==
